@@ -82,7 +82,16 @@ pub fn oracle_with(c: &FieldCase, obs: &mut Obs, judge_undetermined: bool) -> Ve
                 } else {
                     "undetermined-input".to_string()
                 };
-                out.push(viol(format!("C05|{}|unfaithful|{}", c.ty, why), d));
+                // what was lost: letters of the input missing from the output is loss of data; only
+                // delimiters / digits differing is a matter of spelling
+                let loss = match split_swift(&v.swift) {
+                    Some((_, o)) => loss_class(&c.content, &o),
+                    None => "no-tag",
+                };
+                out.push(viol(
+                    format!("C05|{}|unfaithful|{}|{}", c.ty, why, loss),
+                    d,
+                ));
             }
         }
         if c.origin == "valid"
@@ -97,6 +106,25 @@ pub fn oracle_with(c: &FieldCase, obs: &mut Obs, judge_undetermined: bool) -> Ve
     out
 }
 
+/// letters of `input` that `output` no longer has (as a multiset), or has in addition
+pub fn loss_class(input: &str, output: &str) -> &'static str {
+    let count = |s: &str| {
+        let mut m = std::collections::BTreeMap::new();
+        for c in s.chars().filter(|c| c.is_ascii_alphabetic()) {
+            *m.entry(c).or_insert(0i32) += 1;
+        }
+        m
+    };
+    let (a, b) = (count(input), count(output));
+    let lost = a.iter().any(|(c, n)| b.get(c).copied().unwrap_or(0) < *n);
+    let added = b.iter().any(|(c, n)| a.get(c).copied().unwrap_or(0) < *n);
+    match (lost, added) {
+        (true, _) => "letters-lost",
+        (false, true) => "letters-added",
+        _ => "letters-kept",
+    }
+}
+
 fn concrete() -> Vec<&'static str> {
     specs().iter().map(|s| s.ty).collect()
 }
@@ -109,14 +137,19 @@ pub fn run(ctx: &Ctx) {
     let to_json = |c: &FieldCase| serde_json::to_value(c).unwrap();
     // deterministic grid (independent of VERIF_SEED): K fixed base contents per field x every part x every mutation class
     let k = ctx.n(12, 60) as u64;
-    ctx.exhaustive("near-miss grid: per field type, K fixed valid base contents x every part x {lengthen 1/2/20, shorten, 16 substitutions at first/middle/last position, bad dates, bad amounts, bad BICs} + trailing data, extra/leading/blank lines, CRLF, empty, every single-character deletion");
+    ctx.exhaustive("near-miss grid: per field type, K fixed valid base contents of distinct shape (optional parts present, number of lines) x every part x {lengthen 1/2/20, shorten, 16 substitutions at first/middle/last position, bad dates, bad amounts, bad BICs} + trailing data, extra/leading/blank lines, CRLF, empty, every single-character deletion");
     ctx.run_enumerated(
         "grid",
         tys.len(),
         &|sh| {
             let ty = tys[sh];
             let mut v = Vec::new();
-            for j in 0..k {
+            // K base contents of distinct shape (which optional parts are present, how many lines) out
+            // of 24 x K candidates from fixed seeds; remaining places are filled in candidate order
+            let mut bases: Vec<crate::spec::GenOut> = Vec::new();
+            let mut rest: Vec<crate::spec::GenOut> = Vec::new();
+            let mut shapes = std::collections::BTreeSet::new();
+            for j in 0..k * 24 {
                 let data: Vec<u32> = (0..256)
                     .map(|i| {
                         crate::choice::splitmix(0xC05 ^ ((sh as u64) << 20) ^ (j << 10) ^ i) as u32
@@ -124,6 +157,24 @@ pub fn run(ctx: &Ctx) {
                     .collect();
                 let mut src = Src::new(&data);
                 let out = spec_of(ty).g.generate(&mut src);
+                let shape = format!(
+                    "{}|{}",
+                    out.spans.iter().map(|s| s.2.as_str()).collect::<Vec<_>>().join(","),
+                    out.text.matches('\n').count()
+                );
+                if shapes.insert(shape) {
+                    bases.push(out);
+                } else if rest.len() < k as usize {
+                    rest.push(out);
+                }
+                if bases.len() >= k as usize {
+                    break;
+                }
+            }
+            while bases.len() < k as usize && !rest.is_empty() {
+                bases.push(rest.remove(0));
+            }
+            for out in bases {
                 v.push(FieldCase {
                     ty: ty.to_string(),
                     content: out.text.clone(),
